@@ -142,6 +142,8 @@ CONVERTERS = {          # name -> (factory, consumes the remaining segments): th
     'tagA': (make_conv_tag('A:', 'a'), False), 'tagB': (make_conv_tag('B:', 'b'), False),
     # harness converter that may run user code (e.g. register a route) while a lookup is in flight
     'plug': (lambda: (lambda s: None if s.startswith('n') else 'P:' + s), False),
+    # harness converter whose constructor can be made to fail once (compile-time fault); when it works:
+    'flaky': (lambda tag='F': (lambda s: None if s.startswith('n') else tag + ':' + s), False),
 }
 # the check's alternative profile: 'int' and 'veto' replaced on that router, 'hex' added
 CONVERTERS_ALT = dict(CONVERTERS, int=(conv_hexint, False), veto=(conv_veto_alt, False), hex=(conv_hexint, False))
